@@ -398,7 +398,9 @@ def judge(part, w):
             continue
 
         if hand_ons != 1:
-            for prop in ('C07', 'C08') if named else ('C07',):
+            # (C05: every task reaches exactly one final state - each hand-on
+            # becomes a final state on the client)
+            for prop in ('C07', 'C05', 'C08') if named else ('C07', 'C05'):
                 viol(prop, 'hand-on-count', 'Popen',
                      '%s:push=%d:final=%s' % (trig, len(o['push']),
                                               '+'.join(o['final']) or '-'),
